@@ -1,8 +1,8 @@
 ----------------------------- MODULE MCContainers -----------------------------
 EXTENDS Containers, Json
 CONSTANTS Depth, Export, Pairs
-VARIABLES tree, prog, outmode, emitted
-vars == <<tree, prog, outmode, emitted>>
+VARIABLES tree, prog, outmode, whole, emitted
+vars == <<tree, prog, outmode, whole, emitted>>
 Weights == {2, -3}
 Terms(t) == {[acc |-> a, w |-> w, uselen |-> u] : a \in Accesses(t), w \in Weights, u \in BOOLEAN}
 \* programs: one term, or two terms (the second with the other weight, so that contributions to one leaf add up)
@@ -11,9 +11,12 @@ Init == /\ tree \in Trees(Depth)
                     \cup (IF Pairs THEN {<<x, y>> : x \in {tt \in Terms(tree) : tt.w = 2 /\ ~tt.uselen}, y \in {tt \in Terms(tree) : tt.w = -3}} ELSE {})
         /\ outmode \in {"scalar", "tuple", "list", "dict"}
         /\ (outmode # "scalar" => Len(prog) >= 1)
+        \* whole: the root container is first used AS A WHOLE three times (it is nested three times in a new list and the terms read it
+        \* back from there): the gradient is the same, but it reaches the root as whole-container cotangents that are accumulated
+        /\ whole \in BOOLEAN
         /\ emitted = FALSE
-Next == /\ ~emitted /\ emitted' = TRUE /\ UNCHANGED <<tree, prog, outmode>>
-        /\ (Export => PrintT(ToJson([tree |-> tree, prog |-> prog, outmode |-> outmode, grad |-> GradFlat(tree, prog),
+Next == /\ ~emitted /\ emitted' = TRUE /\ UNCHANGED <<tree, prog, outmode, whole>>
+        /\ (Export => PrintT(ToJson([tree |-> tree, prog |-> prog, outmode |-> outmode, whole |-> whole, grad |-> GradFlat(tree, prog),
                                       order |-> FlattenOrder(tree), nleaves |-> Len(FlattenOrder(tree))])))
 Spec == Init /\ [][Next]_vars
 Laws == FlattenLaws(tree)
